@@ -51,6 +51,8 @@ def configs(tier, seed):
                         Tv = 9  # 7 cells up to depth 2, then the cap is the only thing that stops the search
                     out.append({"name": "rule-%s-%s-d%d-T%d%s" % (algo, part, d, Tv, tag), "algo": algo, "part": part, "d": d, "T": Tv,
                                 "params": pr, "cost": Tv * d * arity(part, d)})
+    for c in c01.modeb_configs(tier, ["SOO", "StoSOO", "DOO"], parts=("B", "K3", "RB", "RK3")):
+        out.append(dict(c, name="rule-" + c["name"]))
     out.append({"name": "twin-SOO", "algo": "SOO", "part": "B", "d": 1, "T": 3, "params": {}, "twin": True, "expect_fail": "twin"})
     return out
 
@@ -182,6 +184,9 @@ def run(ctx, cfg):
     c = dict(cfg)
     pr = dict(c.get("params", {}))
     dom = None
+    if cfg.get("prefix"):
+        from harness.runlevel import initial_domain
+        dom = initial_domain(ctx, cfg)
     if pr.pop("concrete_box", False):
         dom = [[0.0, 1.0] for _ in range(cfg["d"])]
     if pr.get("delta") == "user":
